@@ -49,6 +49,13 @@ bool xp_replaying(void);
 bool xp_verbose(void);
 void xp_harness_error(const char *fmt, ...) __attribute__((noreturn, format(printf, 1, 2)));
 void xp_end_run(void) __attribute__((noreturn)); /* normal end of an execution */
+/* Twin executions (differential oracle): call before sim_boot().  Forks; returns 1 in the twin, 0 in the primary.
+ * Both run the same choice prefix.  At the end the twin calls xp_twin_end(mine, NULL) (sends its transcript, exits);
+ * the primary calls xp_twin_end(mine, &other) and receives the twin's transcript (a failure in the twin is
+ * re-raised in the primary). */
+int xp_twin_begin(void);
+void xp_twin_end(const struct bytebuf *mine, struct bytebuf *other);
+bool xp_is_twin(void);
 
 struct driver {
 	const char *name;
